@@ -24,7 +24,9 @@
   the timer is started, when it may and when it must fire, and that it is cancelled.  Section J is about
   what `closeWriter` can do to a leg (`Legs`, `hstep`): a half-close is relayed at once where the leg has a
   `CloseWrite`, only by closing the tunnel where it has none, and in NO case does it disable the opposite
-  direction.  Section K puts the request / dial limits on the clock (`Limits`, `lstep`): none of them is
+  direction (open finding F48: the full-strength "the far end observes end-of-stream" is
+  `c03_legs_half_close_relayed_full`, proved for legs with a `CloseWrite`, refuted by a witness for a leg
+  without).  Section K puts the request / dial limits on the clock (`Limits`, `lstep`): none of them is
   armed on, enables or disables any step of, an established tunnel.
 
   Bytes used in the examples: 72 = 'H' (head), 82 = 'R' (reply head), payload bytes 1 … 9.
@@ -931,6 +933,45 @@ theorem c03_legs_incapable_leg_shown_only_at_close {c : Cfg} {L : Legs} {steps :
 
 example : ∃ h, hrun exCfg exLegs .leave (exSteps.take 15) = some h ∧ h.s.up.eof = true ∧ h.shownU = false ∧
     h.s.phase = .tunnel ∧ h.s.down.delivered = [7, 8, 9] := ⟨_, rfl, by decide⟩
+
+/-- THE PROPERTY'S CLAUSE AT FULL STRENGTH — "when one endpoint shuts down its sending side the other
+    endpoint observes end-of-stream after the last byte" for every leg: once the copier of `d` has returned
+    after reading end-of-stream (its source has finished and every byte has been delivered,
+    `c03_eof_after_last_byte`), the far end of `d` has been shown end-of-stream.  FALSE of the code (finding
+    F48, class `connectfunc-leg-without-closewrite`): a leg without `CloseWrite` cannot be half-closed,
+    `closeWriter` only logs; see `c03_legs_half_close_relayed_witness`. -/
+def c03_legs_half_close_relayed_full : Prop :=
+  ∀ (c : Cfg) (L : Legs) (steps : List Step) (h : HState) (d : Dir),
+    hrun c L .leave steps = some h → (h.s.pipe d).eof = true → h.shown d = true
+
+/-- … proved under the hypothesis that excludes the defect class: the destination of `d` has a `CloseWrite`
+    (found on the value, by reflection, or it is a bare `*io.PipeWriter`) — every leg the proxy dials itself,
+    and the client leg -/
+theorem c03_legs_half_close_relayed_partial {c : Cfg} {L : Legs} {steps : List Step} {h : HState} {d : Dir}
+    (hx : hrun c L .leave steps = some h) (hcap : L.dst d = .halfClose) (he : (h.s.pipe d).eof = true) :
+    h.shown d = true :=
+  (hinv_run hx).eofShown d hcap he
+
+example : ∃ h, hrun exCfg {} .leave (exSteps.take 12) = some h ∧ h.s.up.eof = true ∧ h.shownU = true :=
+  ⟨_, rfl, by decide⟩
+
+/-- … and the hypothesis is needed (F48): the target leg has no `CloseWrite`, the client half-closes after
+    `1 2 3 4`, the copier delivers them all and returns — the target is shown nothing; it may wait as long as
+    the grace timer lets it: the forced close ends the tunnel with the target never shown a clean
+    end-of-stream, and the reply `9` it wrote is never delivered.  So the full statement is false. -/
+theorem c03_legs_half_close_relayed_witness :
+    ¬ c03_legs_half_close_relayed_full ∧
+      ∃ h h', hrun exCfg exLegs .leave (exSteps.take 12) = some h ∧ h.s.up.eof = true ∧
+        h.s.up.delivered = stream exCfg h.s .up ∧ h.shownU = false ∧ h.s.phase = .tunnel ∧
+        hrunFrom exCfg exLegs .leave h [.targetWrite [9], .graceExpire] = some h' ∧ h'.shownU = false ∧
+        h'.s.expired = true ∧ h'.s.closedT = true ∧ h'.s.down.delivered = [7, 8] ∧
+        stream exCfg h'.s .down = [7, 8, 9] := by
+  refine ⟨?_, _, _, rfl, by decide, by decide, by decide, by decide, rfl, by decide, by decide, by decide,
+    by decide, by decide⟩
+  intro hfull
+  have hr : hrun exCfg exLegs .leave (exSteps.take 12) = some _ := rfl
+  have := hfull exCfg exLegs (exSteps.take 12) _ .up hr (by decide)
+  exact absurd this (by decide)
 
 /-- every state in which, within the grace period, the proxy has nothing left to do is accepted by
     `acceptL` (the acceptor of the driver's `holds` when it is told the legs' capabilities) -/
